@@ -46,7 +46,7 @@ def cases(draw):
     proj = draw(projgen.projects())
     reqs = []
     for _ in range(12):
-        reqs.append([draw(st.sampled_from(KINDS)), draw(st.integers(0, 10 ** 6)), draw(st.integers(0, 10 ** 6)), draw(st.integers(0, 2)), draw(st.integers(0, 10 ** 6))])
+        reqs.append([draw(st.sampled_from(KINDS + ["write_ignored_file"])), draw(st.integers(0, 10 ** 6)), draw(st.integers(0, 10 ** 6)), draw(st.integers(0, 2)), draw(st.integers(0, 10 ** 6))])
     proj["requests"] = reqs
     proj["restrict"] = draw(st.integers(0, 10 ** 6))
     return proj
@@ -152,10 +152,10 @@ def evaluate(case, env):
     # out-of-project module that defines names of the identifier pool and is imported by main through python_path
     names = projgen.POOL
     outside_src = "".join("%s = %d\n" % (n, i) for i, n in enumerate(names[:5])) + "def outside_fn(alpha, beta=2):\n    return alpha + beta\nclass OutsideCls:\n    gamma = 1\n"
-    files["main.py"] = files["main.py"] + "import outside_mod\nprint(outside_mod.alpha, outside_mod.outside_fn(1))\n"
+    files["main.py"] = files["main.py"] + "import outside_mod\nprint(outside_mod.alpha, outside_mod.outside_fn(1))\nimport outside_pkg\nprint(outside_pkg.alpha)\n"
     files["ignored/ign.py"] = "".join("%s = %d\n" % (n, i) for i, n in enumerate(names)) + "import m0\n"
     fsmodel.write_tree(root, files)
-    fsmodel.write_tree(sibling, {"outside_mod.py": outside_src})
+    fsmodel.write_tree(sibling, {"outside_mod.py": outside_src, "outside_pkg/": None, "outside_pkg/__init__.py": "alpha = 5\n"})
     project = Project(root, ropefolder=None, python_path=[sibling], ignored_resources=["ignored", "*.pyc"])
     try:
         def snap():
@@ -171,17 +171,33 @@ def evaluate(case, env):
         for t in case["tokens"]:
             by_file.setdefault(t[0], []).append(t[1])
         paths = sorted(case["files"])
-        for kind, a, b, mode, extra in case["requests"]:
-            path = paths[a % len(paths)]
-            src = files[path]
-            if mode < 2 and by_file.get(path):
-                off = by_file[path][b % len(by_file[path])]
-                where = "ident"
+        # two fixed requests at the end: rename the out-of-project module / package from its import in main.py
+        fixed = [("rename", "main.py", files["main.py"].rindex("outside_mod"), 0, 0), ("rename", "main.py", files["main.py"].rindex("outside_pkg"), 0, 0)]
+        for kind, a, b, mode, extra in list(case["requests"]) + fixed:
+            if isinstance(a, str):
+                path, src, off, where = a, files[a], b, "outside_import"
+                if project.get_file(path).read() != src:
+                    continue  # an earlier request rewrote main.py: the offset is stale
             else:
-                off = b % (len(src) + 1)
-                where = "arbitrary"
+                path = paths[a % len(paths)]
+                src = files[path]
+                if mode < 2 and by_file.get(path):
+                    off = by_file[path][b % len(by_file[path])]
+                    where = "ident"
+                else:
+                    off = b % (len(src) + 1)
+                    where = "arbitrary"
             res = project.get_file(path)
             sub = {"kind": kind, "path": path, "offset": off, "where": where}
+            if kind == "write_ignored_file":
+                # not a refactoring request: the user (or a generator script) writes an ignored file THROUGH rope while the
+                # project's caches are warm; later refactorings must still leave the ignored folder alone
+                project.get_python_files()
+                ign = project.get_file("ignored/ign.py")
+                ign.write(ign.read() + "# touched\n")
+                S0 = snap()
+                out.labels["write_ignored_file"] += 1
+                continue
             out.evals += 1
             restricted = None
             try:
@@ -271,7 +287,14 @@ def evaluate(case, env):
                 out.violation("C09:ignored_resource_modified:" + kind, str(sorted(changed)[:4]), sub)
             if restricted is not None:
                 allowed = {r.path for r in restricted}
-                bad = {p for p in changed if p not in allowed and not any(p == m or p.startswith(m + "/") for m in moved_roots)}
+                # a moved module / package is only covered when the restriction names it (for a package: its __init__.py)
+                pairs_ = []
+                _collect_move_pairs(changes, pairs_)
+                ok_moves = set()
+                for s_, d_ in pairs_:
+                    if s_ in allowed or s_ + "/__init__.py" in allowed:
+                        ok_moves |= {s_, d_}
+                bad = {p for p in changed if p not in allowed and not any(p == m or p.startswith(m + "/") for m in ok_moves)}
                 if bad:
                     out.violation("C09:change_outside_restriction:" + kind, "%s not in %s" % (sorted(bad)[:4], sorted(allowed)), sub)
             if expected is not None and after != expected:
